@@ -23,7 +23,7 @@ def xsTCode : List DInstr :=
 set_option maxRecDepth 100000 in
 set_option maxHeartbeats 1000000 in
 theorem xsT_spec (s : State) (hG : s.gpr.length = 16) (hV : s.vec.length = 32) (Mf : List Nat → List Region) (tbase : Nat)
-    (bf : Buf Mf tbase 32) (b0 : List Nat) (hb0 : b0.length = 32) (hbb : ∀ x ∈ b0, x < 2 ^ 8) (hm : s.mem = Mf b0) (toff : Nat)
+    (bf : Buf Mf tbase 32) (b0 : List Nat) (hb0 : b0.length = 32) (toff : Nat) (hbb : ∀ x ∈ (b0.drop toff).take 16, x < 2 ^ 8) (hm : s.mem = Mf b0)
     (hto : toff + 16 ≤ 32) (h6 : greg s 6 = tbase + toff) (htb : tbase + 32 < 2 ^ 63)
     (ks0 : List Nat) (h9 : vreg s 9 < 2 ^ (8 * 16) ∧ lanes 8 16 (vreg s 9) = ks0 ∧ ks0.length = 16 ∧ ∀ x ∈ ks0, x < 2 ^ 8) :
     ∃ s', execList xsTCode s = .ok s' ∧ s'.mem = Mf (spliceAt b0 toff (xorN ((b0.drop toff).take 16) ks0)) := by
@@ -38,7 +38,7 @@ theorem xsT_spec (s : State) (hG : s.gpr.length = 16) (hV : s.vec.length = 32) (
   let c0 := (b0.drop toff).take 16
   have hc0 : c0.length = 16 ∧ ∀ x ∈ c0, x < 2 ^ 8 :=
     ⟨by show ((b0.drop toff).take 16).length = 16; rw [List.length_take, List.length_drop]; omega,
-      fun x hx => hbb x (List.mem_of_mem_drop (List.mem_of_mem_take hx))⟩
+      hbb⟩
   have hrd : readMem (Mf b0) (tbase + toff) 16 = .ok c0 := bf.rd b0 toff 16 hb0 (by omega)
   have x0 := vpxord_bytes 16 c0 ks0 b9 (by decide) hc0.1 hc0.2 h9.1 h9.2.1
   let o0 := xorN c0 ks0
